@@ -363,7 +363,7 @@ impl ZerosShape for usize { type Out = Arr1;
     open spec fn zeros_post(&self, r: &Arr1) -> bool { r@.len() == *self && forall|i: int| 0 <= i < r@.len() ==> #[trigger] r@[i] == t_zero() } }
 impl ZerosShape for DimShim { type Out = ArrD;
     open spec fn zeros_post(&self, r: &ArrD) -> bool {
-        r.rows@.len() == self.d@[0] && (forall|i: int| 0 <= i < r.rows@.len() ==> (#[trigger] r.rows@[i]).len() == self.lanes@)
+        r.rows@.len() == self.d@[0] && r.dims@ == self.d@ && (forall|i: int| 0 <= i < r.rows@.len() ==> (#[trigger] r.rows@[i]).len() == self.lanes@)
         && (forall|i: int, j: int| 0 <= i < r.rows@.len() && 0 <= j < self.lanes@ ==> #[trigger] r.rows@[i][j] == t_zero()) } }
 impl Array {
     #[verifier::external_body]
@@ -399,7 +399,7 @@ impl ArrD {
     #[verifier::external_body]
     pub fn shape(&self) -> (r: &[usize]) ensures r@ == self.dims@ { unimplemented!() }
     #[verifier::external_body]
-    pub fn raw_dim(&self) -> (r: DimShim) ensures r.d@.len() >= 1, r.d@[0] == self.rows@.len(), self.rows@.len() > 0 ==> r.lanes@ == self.rows@[0].len() { unimplemented!() }
+    pub fn raw_dim(&self) -> (r: DimShim) ensures r.d@.len() >= 1, r.d@[0] == self.rows@.len(), self.rows@.len() > 0 ==> r.lanes@ == self.rows@[0].len(), r.d@ == self.dims@ { unimplemented!() }
     #[verifier::external_body]
     pub fn index_axis(&self, ax: Axis, i: usize) -> (r: Lanes)
         requires ax.0 == 0, i < self.rows@.len()
